@@ -61,7 +61,12 @@ def check(ctx):
     if len(prm) < 4:
         raise AnalysisError('role check __call__ has too few parameters')
     target_p, creds_p = prm[1], prm[2]
-    t = Table(prog, f)
+    from ..dte import inline_self_methods
+    helpers = {g.qual for q in prog.mro(cq) if q in prog.classes
+               for g in prog.classes[q].methods.values()
+               if not g.name.startswith('__')}
+    t = Table(prog, f, inline=inline_self_methods(prog, only=helpers)
+              if helpers else None)
     W = ctx.where(f.module, f.node)
     n_member = n_false = n_subst = 0
     for p in t.paths:
@@ -191,11 +196,13 @@ def check(ctx):
     ctx.floor('C04.MEMBER', n_member, 1, 'membership results')
     ctx.floor('C04.SUBST', n_subst, 1, 'substitution handlers')
     # the substitution must be guarded at all
+    scope = [f] + [prog.functions[h] for h in helpers
+                   if h in prog.functions]
     subst_in_try = any(
         isinstance(n, ast.Try) and any(
             isinstance(x, ast.BinOp) and isinstance(x.op, ast.Mod)
             and U(x.left) == 'self.match' for b in n.body
-            for x in ast.walk(b)) for n in ast.walk(f.node))
+            for x in ast.walk(b)) for g in scope for n in ast.walk(g.node))
     ctx.ob('C04.SUBST', subst_in_try, W, f.qual, 'self.match % target',
            'the placeholder substitution is guarded by a handler'
            if subst_in_try else 'the placeholder substitution is not '
